@@ -50,6 +50,9 @@ DelLocal(st, x) == IF st.par = 0 THEN Out(st, "Error", <<>>)       \* the deferr
                    ELSE IF Kind(x) = "prototype" THEN Out([st EXCEPT !.local[x] = Absent], "", <<>>)
                    ELSE Out([st EXCEPT !.val[st.par][Target(x)] = DefaultOnP], "", <<>>)
 Swap(st, p) == Out([st EXCEPT !.par = p], "", <<>>)                              \* (whether the swap itself notifies is open)
+\* sx = DelegatesTo("spar", "nope"): the target name is NOT declared by the delegate's class, a strict one.  The name
+\* is governed by the delegate's rule: writing through sx is rejected and stores nothing anywhere, reading raises
+SetViaSx(st) == Out(st, "TraitError", <<>>)
 \* chains of two hops from D2: q -> D.b -> par.tb;  q2 -> D.a -> par.a;  q3 -> D.c -> par.pre_c
 Via(q) == CASE q = "q" -> "b" [] q = "q2" -> "a" [] q = "q3" -> "c"
 ReadQ(st, q) == ReadD(st, Via(q))
